@@ -527,6 +527,8 @@ def c12Op (args : List String) : String :=
   | [] => "bad-op c12"
   | kind :: rest =>
     let sub := (kind.splitOn ":").headD ""
+    -- `?` is how the harness writes a view that is none of nil / state / scalar / array / object
+    if rest.contains "?" then "specfail " ++ kind ++ " law=a-view-has-exactly-one-kind impl=unclassifiable-view" else
     let p : Option (P String) :=
       match sub with
       | "views" | "witness-views" => some (opViews kind)
